@@ -57,7 +57,7 @@ def _keys(rng, n_max, pool=None):
 def random_step(rng, profile, allow_repack=True):
     weights = {
         'add': 5, 'addpack': 5, 'pack': 4, 'clean': 2, 'repack': 2, 'delete': 2, 'loosen': 1, 'import': 2,
-        'reopen': 1, 'initagain': 0.3, 'has': 0.7, 'get': 0.7, 'list': 0.5, 'listpart': 0.3,
+        'reopen': 1, 'initagain': 0.3, 'has': 0.7, 'get': 0.7, 'list': 0.5, 'listpart': 0.3, 'stalelock': 0.4, 'unlock': 0.2,
     }
     if profile == 'C09':
         weights.update({'addpack': 10, 'add': 8, 'import': 3, 'delete': 1, 'repack': 1, 'readd': 5})
@@ -66,7 +66,7 @@ def random_step(rng, profile, allow_repack=True):
     elif profile == 'C11':
         weights.update({'delete': 6, 'repack': 5, 'stray': 3})
     elif profile == 'C13':
-        weights.update({'repack': 0, 'addpack': 8, 'reopen': 3, 'import': 3})
+        weights.update({'repack': 0, 'addpack': 8, 'reopen': 3, 'import': 3, 'stalelock': 2, 'unlock': 0.7})
     if not allow_repack:
         weights['repack'] = 0
     names = list(weights)
@@ -227,6 +227,26 @@ class Runner:
                 else:
                     res = [cont.add_streamed_object(io.BytesIO(data(key)))]
                 return self.names(res), ''
+            if name == 'stalelock':
+                # environment: a writer was killed inside lock_pack: the lock file of the pack that is currently written
+                # to (first pack that does not exist or is below the target) stays behind
+                packdir = os.path.join(self.folder, 'packs')
+                if not [n for n in os.listdir(packdir) if n.endswith('.lock')]:
+                    pack_id = 0
+                    while True:
+                        path = os.path.join(packdir, str(pack_id))
+                        if not os.path.exists(path) or os.path.getsize(path) < self.cfg['target']:
+                            break
+                        pack_id += 1
+                    with open(os.path.join(packdir, f'{pack_id}.lock'), 'x'):
+                        pass
+                return [], ''
+            if name == 'unlock':
+                packdir = os.path.join(self.folder, 'packs')
+                for entry in os.listdir(packdir):
+                    if entry.endswith('.lock'):
+                        os.remove(os.path.join(packdir, entry))
+                return [], ''
             if name == 'stray':
                 # environment: a stray copy in duplicates/ (what a Windows writer race leaves behind)
                 key = step['keys'][0]
@@ -376,6 +396,7 @@ class Runner:
                      for r in state['rows']],
             'packs': [{'p': p, 'len': info['len']} for p, info in sorted(state['packs'].items())],
             'dups': sorted({self.name_of.get(name.partition('.')[0], name[:8]) for name in state['duplicates']}),
+            'locks': sorted(int(n[:-5]) for n in os.listdir(os.path.join(self.folder, 'packs')) if n.endswith('.lock') and n[:-5].isdigit()),
         }
         blobs = state['_blobs']
         grow = []
@@ -812,8 +833,8 @@ def simulate_histories(num: int, depth: int, zlevel: int, target: int, seed: int
             handle.write('Pairs == {<<a>> : a \\in MCKeys} \\cup {<<a, b>> : a, b \\in MCKeys} \\cup '
                          '{<<a, b, a>> : a, b \\in MCKeys} \\cup {<<a, b, c, b>> : a, b, c \\in MCKeys}\n')
             handle.write('Subs == {S \\in SUBSET MCKeys : Cardinality(S) <= 3}\n')
-            handle.write('SimNext == NextWith(Pairs, Subs, Subs, Subs \\cup {MCKeys}, MCSrc, {"NO", "YES", "KEEP", "AUTO"}, '
-                         '{"NO", "YES", "KEEP", "AUTO"})\n')
+            handle.write('SimNext == NextWithLocks(Pairs, Subs, Subs, Subs \\cup {MCKeys}, MCSrc, {"NO", "YES", "KEEP", "AUTO"}, '
+                         '{"NO", "YES", "KEEP", "AUTO"}, TRUE)\n')
             handle.write('SimSpec == Init /\\ [][SimNext]_vars\n====\n')
         with open(os.path.join(workdir, 'MCSim.cfg'), 'w', encoding='utf8') as handle:
             handle.write('SPECIFICATION SimSpec\nCONSTANTS\n  Keys <- MCKeys\n  Size <- MCSize\n  ZLen <- MCZLen\n'
@@ -867,15 +888,16 @@ def _step_from_last(last, src):
     if op == 'import':
         return {'name': 'import', 'keys': sorted(_set(last['S'])), 'z': last['z'], 'budget': 100, 'iterable': 'list',
                 'callback': False, 'srckeys': src, 'samehash': last['sh']}
-    if op in ('reopen', 'initagain'):
+    if op in ('reopen', 'initagain', 'stalelock', 'unlock'):
         return {'name': op}
     return None
 
 
-def model_check(report: common.Report, depth_quick: int = 3, depth_thorough: int = 5, invariants=None, properties=None):
+def model_check(report: common.Report, depth_quick: int = 3, depth_thorough: int = 5, invariants=None, properties=None,
+                config: str = 'MC_Seq'):
     """Exhaustive TLC run of the design model (MC_Seq) with the given invariants/properties."""
     depth = depth_thorough if report.tier == 'thorough' else depth_quick
-    with open(os.path.join(common.SPEC, 'MC_Seq.cfg'), encoding='utf8') as handle:
+    with open(os.path.join(common.SPEC, config + '.cfg'), encoding='utf8') as handle:
         base = handle.read()
     lines = []
     for line in base.splitlines():
@@ -893,12 +915,12 @@ def model_check(report: common.Report, depth_quick: int = 3, depth_thorough: int
         res = tlc.run('MC_Seq', cfg, workers=16, timeout=3000)
     if not res.ok:
         if res.violated:
-            print(f'DESIGN-COUNTEREXAMPLE: TLC finds {res.violated} violated in the design model MC_Seq (depth {depth}); '
+            print(f'DESIGN-COUNTEREXAMPLE: TLC finds {res.violated} violated in the design model {config} (depth {depth}); '
                   'this is a statement about the specification, replayed on the code by the trace checks')
             report.note(f'design model violates {res.violated}')
             print(res.output[-3000:])
         tlc.machinery_failure(res, 'MC_Seq exhaustive check')
     report.add('states', res.distinct)
     report.add('transitions', res.generated)
-    report.set('design_model', {'config': 'MC_Seq', 'depth': depth, **res.summary()})
+    report.set('design_model' if config == 'MC_Seq' else 'design_model_' + config, {'config': config, 'depth': depth, **res.summary()})
     return res
